@@ -79,6 +79,7 @@ type lexState struct {
 	snaps   map[types.Object]snapState
 	byteVar map[types.Object]bool         // locals that alias the current byte
 	runeVar map[types.Object]bool         // locals that alias the current rune
+	sizeVar map[types.Object]bool         // locals that hold the encoded width of the current rune (second result of the decoder)
 	valueOf map[types.Object]types.Object // value := input[start:pos]  ->  start
 	// facts about the token being scanned (reset when Next is entered)
 	sig        bool // a byte other than a blank may have been consumed
@@ -104,12 +105,12 @@ func (s *lexState) markSince(o types.Object) {
 }
 
 func newLexState() *lexState {
-	return &lexState{B: fullSet(), since: map[types.Object]bool{}, snaps: map[types.Object]snapState{}, byteVar: map[types.Object]bool{}, runeVar: map[types.Object]bool{}, valueOf: map[types.Object]types.Object{},
+	return &lexState{B: fullSet(), since: map[types.Object]bool{}, snaps: map[types.Object]snapState{}, byteVar: map[types.Object]bool{}, runeVar: map[types.Object]bool{}, sizeVar: map[types.Object]bool{}, valueOf: map[types.Object]types.Object{},
 		posSnap: map[types.Object]bool{}, sigAt: map[types.Object]bool{}, lead: map[types.Object]bool{}, notAfter: map[types.Object]map[types.Object]bool{}}
 }
 
 func (s *lexState) clone() *lexState {
-	n := &lexState{ne: s.ne, atEOF: s.atEOF, B: s.B, adv: s.adv, since: map[types.Object]bool{}, snaps: map[types.Object]snapState{}, byteVar: map[types.Object]bool{}, runeVar: map[types.Object]bool{}, valueOf: map[types.Object]types.Object{},
+	n := &lexState{ne: s.ne, atEOF: s.atEOF, B: s.B, adv: s.adv, since: map[types.Object]bool{}, snaps: map[types.Object]snapState{}, byteVar: map[types.Object]bool{}, runeVar: map[types.Object]bool{}, sizeVar: map[types.Object]bool{}, valueOf: map[types.Object]types.Object{},
 		sig: s.sig, nl: s.nl, nlUnknown: s.nlUnknown, sawNL: s.sawNL, atStartSet: s.atStartSet, posSnap: map[types.Object]bool{}, sigAt: map[types.Object]bool{}, lead: map[types.Object]bool{},
 		notAfter: map[types.Object]map[types.Object]bool{}, epoch: append([]types.Object(nil), s.epoch...)}
 	for k, v := range s.notAfter {
@@ -139,6 +140,9 @@ func (s *lexState) clone() *lexState {
 	}
 	for k, v := range s.runeVar {
 		n.runeVar[k] = v
+	}
+	for k, v := range s.sizeVar {
+		n.sizeVar[k] = v
 	}
 	for k, v := range s.valueOf {
 		n.valueOf[k] = v
@@ -217,6 +221,11 @@ func joinStates(a, b *lexState) *lexState {
 	for k := range n.runeVar {
 		if !b.runeVar[k] {
 			delete(n.runeVar, k)
+		}
+	}
+	for k := range n.sizeVar {
+		if !b.sizeVar[k] {
+			delete(n.sizeVar, k)
 		}
 	}
 	for k, v := range n.valueOf {
@@ -1498,6 +1507,7 @@ func (li *lexInterp) effectiveAdvance(n ast.Node, in []*lexState, fr *lexFrame) 
 		n2.B = fullSet()
 		n2.byteVar = map[types.Object]bool{}
 		n2.runeVar = map[types.Object]bool{}
+		n2.sizeVar = map[types.Object]bool{}
 		out = append(out, n2)
 	}
 	return normalize(out)
@@ -1570,6 +1580,7 @@ func (li *lexInterp) assign(s *ast.AssignStmt, in []*lexState, fr *lexFrame) []*
 				if o := obj(i); o != nil {
 					delete(st.byteVar, o)
 					delete(st.runeVar, o)
+					delete(st.sizeVar, o)
 					delete(st.valueOf, o)
 					delete(st.snaps, o)
 					delete(st.since, o)
@@ -1646,6 +1657,11 @@ func (li *lexInterp) assign(s *ast.AssignStmt, in []*lexState, fr *lexFrame) []*
 								st.runeVar[o] = true
 							}
 						}
+						if o := obj(1); o != nil {
+							for _, st := range out {
+								st.sizeVar[o] = true
+							}
+						}
 					}
 				}
 			}
@@ -1704,7 +1720,31 @@ func (li *lexInterp) assignLexerField(lhs ast.Expr, rhs ast.Expr, tok token.Toke
 	case li.isLexerField(lhs, "pos"):
 		switch tok {
 		case token.ADD_ASSIGN, token.INC:
-			// pos += size / pos++ : size is the decoded width of the current rune (>= 1 when pos < len)
+			// pos += size / pos++ : the step must be the encoded width of the current rune (>= 1 and within the
+			// input when pos < len), or 1 over a byte known to be ASCII
+			for _, s := range in {
+				site := fmt.Sprintf("step #%d in %s (context %s)", ordinalIn(fr.fd, n), li.fnName(fr), strings.Join(li.stack, ">"))
+				okStep := false
+				why := ""
+				switch {
+				case tok == token.INC || func() bool { k, isK := constInt(li.info, rhs); return rhs != nil && isK && k == 1 }():
+					var ascii bset
+					for b := 0; b < 128; b++ {
+						ascii.add(b)
+					}
+					okStep = s.atEOF || (s.ne && s.B.and(ascii.not()).empty())
+					why = "the position is advanced by one byte although the current byte may start a multi-byte character (possible bytes: " + s.B.String() + ")"
+				case rhs != nil && s.sizeVar[li.info.Uses[identOf(rhs)]]:
+					okStep = true
+				default:
+					why = "the position is advanced by `" + exprStr(li.c.P.Fset, rhs) + "`, which is not the width the decoder reported for the current rune"
+				}
+				if okStep {
+					li.okOnce("L-STEP", fr, site, n.Pos(), "the position moves by the decoded width of the current rune")
+				} else {
+					li.findOnce("L-STEP", fr, site, n.Pos(), why+": the position can run past the end of the input (slice bounds panic in the scanners) or land inside a character, and bytes - including a line break - are skipped without being scanned")
+				}
+			}
 			return li.effectiveAdvance(n, in, fr)
 		case token.ASSIGN:
 			if id, ok := ast.Unparen(rhs).(*ast.Ident); ok {
@@ -1735,6 +1775,7 @@ func (li *lexInterp) assignLexerField(lhs ast.Expr, rhs ast.Expr, tok token.Toke
 						}
 						n2.byteVar = map[types.Object]bool{}
 						n2.runeVar = map[types.Object]bool{}
+						n2.sizeVar = map[types.Object]bool{}
 						out = append(out, n2)
 					}
 					return normalize(out)
